@@ -20,6 +20,14 @@ from ..terms import NONE, callee_name, is_const, op, show, subterms, substitute
 FLAGS = ("strict", "passthrough", "return_none")
 TABLE_ATTRS = {"prefix_map", "reverse_prefix_map", "synonym_to_prefix", "pattern_map", "trie"}
 TRIE_RAISERS = {"longest_prefix_item", "longest_prefix", "longest_prefix_value"}
+# stdlib calls that raise for SOME strings (a builtin exception, foreign to the library's conversion errors):
+# table written from the library documentation
+STDLIB_RAISERS = {
+    "urllib.parse.urlsplit": ("ValueError", "raises ValueError('Invalid IPv6 URL') for an unbalanced '[' / ']' in the authority"),
+    "urllib.parse.urlparse": ("ValueError", "raises ValueError('Invalid IPv6 URL') for an unbalanced '[' / ']' in the authority"),
+    "re.compile": ("error", "re.compile raises re.error for an invalid pattern"),
+    "ipaddress.ip_address": ("ValueError", "not an address"),
+}
 
 
 @dataclass(frozen=True)
@@ -318,6 +326,12 @@ class Mode:
                     if (op(f) == "attr" and f[1] in (("builtin", "set"), ("builtin", "frozenset")) and f[2] in ("union", "intersection", "difference") and c[2] and op(c[2][0]) == "star") or (op(f) == "ext" and f[1] == "functools.reduce" and len(c[2]) == 2):
                         if not self._caught("TypeError", cov):
                             res.raises.add(Esc("TypeError", fn.qualname, line, ("empty-iterable", show(c)[:50])))
+                        continue
+                    # library semantics: stdlib functions that raise on inputs of the documented type (a str)
+                    if op(f) == "ext" and f[1] in STDLIB_RAISERS:
+                        exc, why = STDLIB_RAISERS[f[1]]
+                        if not self._caught(exc, cov):
+                            res.raises.add(Esc(exc, fn.qualname, line, (f[1], why)))
                         continue
                     callee = self.resolve(fn, c)
                     if callee is None and op(f) == "cls" and f[1] in self.cx.model.classes:
